@@ -4,6 +4,7 @@
     events are mutated while they sit in the heap and because rounded runs may present an
     inconsistent order. *)
 From Coq Require Import List Arith.
+From GB Require Import Prim.
 Import ListNotations.
 Set Implicit Arguments.
 
@@ -26,7 +27,7 @@ Fixpoint sift_up_loop (fuel : nat) (data : list T) (start hole : nat) (x : T) : 
   | O => hset data hole x
   | S f =>
       if Nat.ltb start hole then
-        let parent := Nat.div (hole - 1) 2 in
+        let parent := Nat.div (psub hole 1) 2 in
         if le x (hget data parent) then hset data hole x
         else sift_up_loop f (hset data hole (hget data parent)) start parent x
       else hset data hole x
@@ -40,10 +41,10 @@ Fixpoint sift_down_loop (fuel : nat) (data : list T) (end_ hole : nat) : list T 
   | O => (data, hole)
   | S f =>
       let child := 2 * hole + 1 in
-      if Nat.leb child (end_ - 2) then
+      if Nat.leb child (psub end_ 2) then
         let child' := if le (hget data child) (hget data (child + 1)) then child + 1 else child in
         sift_down_loop f (hset data hole (hget data child')) end_ child'
-      else if Nat.eqb child (end_ - 1) then (hset data hole (hget data child), child)
+      else if Nat.eqb child (psub end_ 1) then (hset data hole (hget data child), child)
       else (data, hole)
   end.
 
